@@ -553,6 +553,7 @@ def build(tier):
     for ct in (('float',) if q else ('float', 'int', 'unsigned')):
         full = not q and ct != 'unsigned'      # aligned uint: every 2-letter swizzle is rejected (known finding); fewer aliases keep the pruning rounds short
         us.append(sw_unit('op', ct, Q='aligned_highp', Ls=(3, 4) if q else (2, 3, 4), sets=SETS if full else ('xyzw',), writable=full))
+    if q: us.append(sw_unit('opavx', 'float', Q='aligned_highp', Ls=(3, 4), sets=('xyzw',)))      # instruction-set specific shuffle / broadcast specialisations of the SIMD read path
     # (c) free functions
     for ct in (('float', 'int') if q else ('float', 'int', 'uint8_t', 'double', 'bool')): us.append(sw_unit('free', ct))
     if not q:
